@@ -143,12 +143,17 @@ def _report(ctx: Ctx, tv, log) -> None:
 def run_c16(ctx: Ctx) -> None:
     base = 1000 * ctx.seed
     jobs: List[Dict[str, Any]] = []
-    for k in range(ctx.pick(14, 120)):
-        focus = [None, "energy", "dispatch", "queue", "fleet", None][k % 6]
+    for k in range(ctx.pick(24, 160)):
+        focus = [None, "energy", "dispatch", "energy", "fleet", "queue"][k % 6]
         wk: Dict[str, Any] = {"focus": focus} if focus else {}
+        if focus == "energy":
+            wk["dt"] = 60
         jobs.append({"id": f"saved{base + k}", "label": "saved", "mode": "saved", "src": "gen", "seed": 61000 + base + k, "steps": ctx.pick(30, 50),
-                     "world_kwargs": wk, "mix": ["builtin+adv", "adv", "builtin", "adv+builtin"][k % 4], "every": 5, "later": 8,
-                     "throttle": focus == "energy"})
+                     "world_kwargs": wk, "mix": ["builtin+adv", "adv", "builtin", "adv+builtin"][k % 4] if focus != "energy" else "adv",
+                     "every": 5 if focus != "energy" else 3, "later": 8, "throttle": focus == "energy"})
+        if focus == "energy":
+            # plenty of simultaneous charging on plugs of different (throttled) power
+            jobs[-1].update({"kinds": ["ChargeStation", "ChargeStation", "ChargeStation", "Idle", "DispatchStation", "ChargeBase"], "p_instr": 0.5})
     jobs.append({"id": "denver_demo", "label": "saved", "mode": "saved", "src": "shipped", "scenario": str(SCEN_DENVER / "denver_demo.yaml"),
                  "steps": ctx.pick(60, 400), "every": 10, "later": 15})
     groups = [("0", jobs[i::6]) for i in range(6) if jobs[i::6]]
